@@ -8,14 +8,14 @@ open CC CC.Gen
 def Rejected (st : Option Stat) : Prop :=
   ∃ s, st = some s ∧ s ≠ .ok ∧ s ≠ .errAlloc ∧ s ≠ .errMaxCapacity
 
-theorem step_inert (a : ArraySized) (op : Spec.SSeq.Op Elem) (m : Mem) (h : a.Inv) (hg : a.GrowOk)
+theorem step_inert (a : ArraySized) (op : Spec.SSeq.Op Elem) (m : Mem) (h : a.Inv)
     (hw : OpWF a.dataLen op) (hrej : Rejected (a.step op m).1.st) :
     (a.step op m).2.1 = a ∧ (a.step op m).2.2 = m := by
   obtain ⟨s, hs, n1, n2, n3⟩ := hrej
   cases op with
   | add x =>
     simp only [step, Option.some.injEq] at hs
-    rcases add_spec a x m h hg hw with ⟨h1, _⟩ | ⟨h1, _⟩
+    rcases add_spec a x m h hw with ⟨h1, _⟩ | ⟨h1, _⟩
     · rw [h1] at hs; exact absurd hs.symm n1
     · rcases h1 with h1 | h1 <;> rw [h1] at hs
       · exact absurd hs.symm n2
@@ -23,7 +23,7 @@ theorem step_inert (a : ArraySized) (op : Spec.SSeq.Op Elem) (m : Mem) (h : a.In
   | addAt x i =>
     by_cases hi : i ≤ a.size
     · simp only [step, Option.some.injEq] at hs
-      rcases addAt_spec a x i m h hg hw hi with ⟨h1, _⟩ | ⟨h1, _⟩
+      rcases addAt_spec a x i m h hw hi with ⟨h1, _⟩ | ⟨h1, _⟩
       · rw [h1] at hs; exact absurd hs.symm n1
       · rcases h1 with h1 | h1 <;> rw [h1] at hs
         · exact absurd hs.symm n2
@@ -75,22 +75,22 @@ theorem step_inert (a : ArraySized) (op : Spec.SSeq.Op Elem) (m : Mem) (h : a.In
   | sort sortFn => simp [step] at hs
 
 /-! ### the per-call bundle under the conventional names -/
-theorem step_inv (a : ArraySized) (op : Spec.SSeq.Op Elem) (m : Mem) (h : a.Inv) (hg : a.GrowOk)
-    (hw : OpWF a.dataLen op) : (a.step op m).2.1.Inv := (step_refines a op m h hg hw).2.2.1
+theorem step_inv (a : ArraySized) (op : Spec.SSeq.Op Elem) (m : Mem) (h : a.Inv)
+    (hw : OpWF a.dataLen op) : (a.step op m).2.1.Inv := (step_refines a op m h hw).2.2.1
 
-theorem step_nofault (a : ArraySized) (op : Spec.SSeq.Op Elem) (m : Mem) (h : a.Inv) (hg : a.GrowOk)
-    (hw : OpWF a.dataLen op) : (a.step op m).2.2.fault = m.fault := (step_refines a op m h hg hw).2.2.2.2.2.1.2
+theorem step_nofault (a : ArraySized) (op : Spec.SSeq.Op Elem) (m : Mem) (h : a.Inv)
+    (hw : OpWF a.dataLen op) : (a.step op m).2.2.fault = m.fault := (step_refines a op m h hw).2.2.2.2.2.1.2
 
 /-- the array owns its two blocks before and after every call of the core API -/
-theorem step_ledger (a : ArraySized) (op : Spec.SSeq.Op Elem) (m : Mem) (h : a.Inv) (hg : a.GrowOk)
-    (hw : OpWF a.dataLen op) : (a.step op m).2.2.live = m.live := (step_refines a op m h hg hw).2.2.2.2.2.1.1
+theorem step_ledger (a : ArraySized) (op : Spec.SSeq.Op Elem) (m : Mem) (h : a.Inv)
+    (hw : OpWF a.dataLen op) : (a.step op m).2.2.live = m.live := (step_refines a op m h hw).2.2.2.2.2.1.1
 
 /-- a refused allocation: status `CC_ERR_ALLOC`, physical state unchanged, ledger unchanged -/
-theorem step_atomic (a : ArraySized) (op : Spec.SSeq.Op Elem) (m : Mem) (h : a.Inv) (hg : a.GrowOk)
+theorem step_atomic (a : ArraySized) (op : Spec.SSeq.Op Elem) (m : Mem) (h : a.Inv)
     (hw : OpWF a.dataLen op) (hst : (a.step op m).1.st = some .errAlloc) :
     (a.step op m).2.1 = a ∧ (a.step op m).2.2.live = m.live ∧ (a.step op m).2.2.fault = m.fault ∧
     m.alloc.1 = false := by
-  obtain ⟨_, _, _, _, _, h6, h7, h8, _⟩ := step_refines a op m h hg hw
+  obtain ⟨_, _, _, _, _, h6, h7, h8, _⟩ := step_refines a op m h hw
   have hr : a.refusal op m = some .errAlloc := by unfold refusal; rw [hst]
   exact ⟨h7 (by rw [hr]; simp), h6.1, h6.2, h8 hr⟩
 
